@@ -25,8 +25,8 @@ mut("C03", "r3-put-precheck-ignored", "database/interface.go",
     "if err != nil && !errors.Is(err, ErrNotFound) && !errors.Is(err, ErrPermissionDenied) {\n\t\t\treturn err\n\t\t}\n\t} else {\n\t\tdb, err = getController(r.DatabaseName())\n\t\tif err != nil {\n\t\t\treturn err\n\t\t}\n\t}\n\n\t// Check if database is read only.\n\tif db.ReadOnly() {\n\t\treturn ErrReadOnly\n\t}\n\n\tr.Lock()\n\ti.options.Apply(r)",
     "C03-R3|database.(*Interface).Put /")
 mut("C03", "r3-delete-bypass", "database/interface.go",
-    "\ti.options.Apply(r)\n\tr.Meta().Delete()\n\treturn db.Put(r)",
-    "\ti.options.Apply(r)\n\tr.Meta().Delete()\n\tif r2, err2 := db.Get(key); err2 == nil {\n\t\tr = r2\n\t}\n\treturn db.Put(r)", "C03-R3|Delete / call Controller.Put #1 / record provenance")
+    "\ti.updateCache(r, false, true, 0)\n\n\treturn db.Put(r)",
+    "\ti.updateCache(r, false, true, 0)\n\tif r2, err2 := db.Get(key); err2 == nil {\n\t\tr = r2\n\t}\n\treturn db.Put(r)", "C03-R3|Delete / call Controller.Put #1 / record provenance")
 mut("C03", "r3-query-swapped", "database/interface.go",
     "return db.Query(q, i.options.Local, i.options.Internal)", "return db.Query(q, i.options.Internal, i.options.Local)", "C03-R3|database.(*Interface).Query")
 mut("C03", "r3-putmany-no-check", "database/interface.go",
